@@ -48,9 +48,12 @@ Definition s_byte_escape (is_bytes : bool) (n : N) (k : option (list N * list N)
 Definition s_unicode_escape (n : N) (k : option (list N * list N)) :=
   if is_scalar n then omap (fun p : list N * list N => (utf8_encode n ++ fst p, snd p)) k else None.
 
+Definition s_emit (bs : list N) (k : option (list N * list N)) : option (list N * list N) :=
+  omap (fun p : list N * list N => (bs ++ fst p, snd p)) k.
+
 (* the characters of the literal after the opening delimiter: (denoted bytes, rest of source) *)
 Fixpoint s_items (raw is_bytes triple : bool) (q : N) (s : list N) : option (list N * list N) :=
-  let emit (bs : list N) := omap (fun p : list N * list N => (bs ++ fst p, snd p)) in
+  let emit := s_emit in
   match s with
   | [] => None
   | c :: t =>
